@@ -31,7 +31,7 @@ CLAIMED['C14'] = dict(
          '(derived from the regex source at run time) is one slice whose fields range over their whole calendar range. Asserts: fields '
          'parsed as written, format->parse gives the same 20 fields, format idempotent, canonical strings unchanged, from_date/from_date_time/from_time canonical.',
     note='Sound because the TIMEX patterns only test digit-ness (checked on the regex source each run). decimal.Decimal is replaced by a '
-         'text-preserving stub; explicit (start,end,duration) ranges are outside. Date-range pattern + T part is the region of known finding F19 (characterised by its own obligation); F7b: zero amounts. ' + NOTE_COMMON,
+         'text-preserving stub; explicit (start,end,duration) ranges are outside. Date-range pattern + T part is the region of known finding F19 (characterised by its own obligation); F7a and F7b (zero amounts) were found here and repaired. ' + NOTE_COMMON,
     design='§5/C14')
 
 CLAIMED['C07'] = dict(
